@@ -66,15 +66,13 @@ Theorem C09_headers_range_roundtrip_partial : forall h o,
 Proof. exact range_roundtrip_partial. Qed.
 Print Assumptions C09_headers_range_roundtrip_partial.
 
-(* SMPTE times (whole seconds, frame and sub-frame below 2^32) survive their codec, given the float64 fact that
-   Duration.Seconds() of a whole-second duration converts back to the number of seconds (checked by the harness on
-   every SMPTE value; not proved here - what is missing for a full theorem) *)
-Theorem C09_headers_smpte_codec_partial : forall t,
-  wf_smpte t = true ->
-  to_int64 (seconds_of (Z.to_N (sm_time t))) = (sm_time t / 1000000000)%Z ->
-  codec_ok smpte_unmarshal smpte_marshal t.
-Proof. exact smpte_codec_partial. Qed.
-Print Assumptions C09_headers_smpte_codec_partial.
+(* SMPTE ranges (whole seconds >= 0, frame and sub-frame below 2^32) round-trip unconditionally; the float64 step
+   (uint64 (t.Time.Seconds())) is exact on whole seconds: FloatProofs.seconds_whole *)
+Theorem C09_headers_range_roundtrip_smpte : forall st en tm o,
+  is_perm o -> wf_smpte st = true -> opt_all wf_smpte en = true -> opt_all wf_utc tm = true ->
+  range_unmarshal_with o (range_marshal (mkRange (RSmpte st en) tm)) = Ok (mkRange (RSmpte st en) tm).
+Proof. exact range_roundtrip_smpte. Qed.
+Print Assumptions C09_headers_range_roundtrip_smpte.
 
 (* NPT times: under Go's documented contract ParseFloat (FormatFloat x) = x, a duration d >= 0 is re-parsed as
    int64 (float64 (d.Seconds()) * 1e9) - a truncation - so it survives iff that equals d (F8: it does not for
